@@ -400,6 +400,8 @@ class BARTMAP(BaseEstimator, BiclusterMixin):
         # init module A
         self.module_a.W = []
         self.module_a.labels_ = np.zeros((X.shape[0],), dtype=int)
+        self.module_a.sample_counter_ = 0
+        self.module_a.weight_sample_counter_ = []
 
         for _ in range(max_iter):
             for k in range(n):
